@@ -29,12 +29,37 @@ def _dump(gc, names):
   return out
 
 
+_CLASS_STATE = {}
+
+
+def _reset_class_state(cls):
+  """Every run starts from the same state: containers stored ON THE CLASS of the scope manager (which no
+  setup function knows about - a changed implementation may add some) get the contents they had when this
+  process first looked.  Without this, what one run leaves behind in such a container leaks into the next
+  run of the same process, and a violation seen there does not replay in a fresh process."""
+  import copy
+  for name, v in list(vars(cls).items()):
+    if name.startswith('__') or not isinstance(v, (list, dict, set)):
+      continue
+    key = (cls, name)
+    if key not in _CLASS_STATE:
+      _CLASS_STATE[key] = copy.deepcopy(v)
+      continue
+    first = copy.deepcopy(_CLASS_STATE[key])
+    v.clear()
+    if isinstance(v, list):
+      v.extend(first)
+    else:
+      v.update(first)
+
+
 def run(programs, setup, mode, schedule=(), tail=(), shared=None):
   """Runs `programs` (callables) on real threads against a fresh Gin state.
 
   Returns (raw traces per thread, results per thread, controller errors)."""
   import gin
   from gin import config as gc
+  _reset_class_state(gc._ScopeManager)
   undo, names = proxies.install(gc)
   undo_tap = proxies.tap_instance_lists(gc._ScopeManager, ('_active_scopes',))
   proxies._PLISTS.clear()
